@@ -39,9 +39,10 @@ import (
 )
 
 // ---- distinctive client addresses (C20 exposure) and listener addresses ----
-var vfClientIPs = []string{"203.0.113.77", "2001:db8::77", "127.0.0.77", "198.51.100.99", "2001:db8:1::99"}
+var vfClientIPs = []string{"203.0.113.77", "2001:db8::77", "127.0.0.77", "10.77.0.7", "fe80::77"}
 var vfClientPorts = []int{54321, 54322, 54323, 54324, 54325}
-var vfClientLocal = []bool{false, false, true, false, false} // loopback: never looked up
+var vfClientLocal = []bool{false, false, true, false, true} // loopback, link-local: never looked up (XL)
+var vfClientClass = []string{"globalv4", "globalv6", "loopback", "private", "linklocal"}
 var vfListeners = []*net.TCPAddr{
 	{IP: net.ParseIP("192.0.2.2"), Port: 9001},
 	{IP: net.ParseIP("2001:db8:ffff::1"), Port: 9002},
